@@ -326,6 +326,20 @@ def pair_distribute(ctx, rule: str) -> None:
             pos_ok = is_name(elt.args[0], "destination") and we is not None and same_seq(we[1], aw) and same_seq(gen.args[0], aw)
         elif is_sym(gen, "gen") and len(gen.args) > 1:
             dedup.append("if-filter")
+    elif is_sym(inner, "mut") and isinstance(inner.args[0], ast.Constant):
+        # positions = []; for w in destination_wells: positions.append(self._get_well_position(destination, w))
+        lname = inner.args[0].value
+        apps_ = [cs for cs in fv.calls() if isinstance(cs.call.func, ast.Attribute) and cs.call.func.attr in ("append", "extend", "insert", "remove", "pop") and is_name(cs.call.func.value, lname)]
+        if len(apps_) == 1 and apps_[0].call.func.attr == "append" and len(apps_[0].call.args) == 1:
+            a_ = apps_[0]
+            lps = [h for h in fv.cfg.enclosing_loops(a_.node) if fv.cfg.nodes[h].kind == "for"]
+            elt = fv.res.resolve(a_.call.args[0], a_.node)
+            if len(lps) == 1 and not fv.cfg.loop_has_break.get(lps[0]) and not fv.controlling(a_.node, within=fv.cfg.loop_body[lps[0]]) \
+                    and isinstance(elt, ast.Call) and isinstance(elt.func, ast.Attribute) and elt.func.attr == "_get_well_position" and len(elt.args) == 2:
+                we = elem_parts(elt.args[1])
+                pos_ok = is_name(elt.args[0], "destination") and we is not None and we[0] == f"loop@{lps[0]}" and same_seq(we[1], aw)
+            elif len(lps) == 1 and fv.controlling(a_.node, within=fv.cfg.loop_body[lps[0]]):
+                dedup.append("if-filter")
     sorted_ok = "sorted" in wrappers or ok_idx and call_fname(ds) == "min"
     ctx.rep.check(pos_ok and ok_idx and sorted_ok, rule, f"{cbase}/range", "dst_start/dst_end are first/last of the sorted device positions of all destination wells",
                   f"destination range is derived from `{show(D)[:100]}`: not the sorted device positions of every destination well", where=w)
